@@ -22,6 +22,11 @@ from clastic.errors import NotFound, Forbidden, Conflict, ServiceUnavailable, Ba
 from sim.core.base import Check, RunResult, Streams, InvalidPlan, canon
 from sim.core.gateway import make_environ, call_app, SimClient
 from sim.core.seams import Seams, SimClock, TimeProxy, make_datetime_proxy
+from sim.core.sched import BatonScheduler
+from sim.core import runner
+import os
+
+WATCH = (os.path.join(runner.REPO, 'clastic') + os.sep, '<sinter')
 
 BIG = b'abc' * 4000
 RND = bytes((i * 7919 + (i >> 3) * 104729) % 251 for i in range(3000))   # poorly compressible, fixed
@@ -139,6 +144,7 @@ class C15(Check):
     design_ref = 'DESIGN.md 3.9'
     runs = {'quick': 1500, 'thorough': 40000}
     shrink_lists = (('ops',), ('config', 'stack'))
+    hashseeds = {'quick': [1], 'thorough': [1, 2]}
     rule = ('a scenario application producing every response kind (Response small/large/compressible/random/empty/streamed, '
             'rendered context, redirect, raised/returned 4xx/5xx, non-breaking errors, uncaught exception, '
             'unknown URL, wrong method, HEAD) is built twice: bare and with a random stack of 1-6 built-in middlewares in default '
@@ -156,7 +162,7 @@ class C15(Check):
                   'stub': ['clock (stats + cookie seams)', 'random.random, os.urandom', 'client + WSGI server']}
     level_text = 'Lock-step differential simulation of client histories against a reference twin; sampled.'
     level_note = 'Trusted: the bare application as the reference; gzip.decompress.'
-    required_probes = ('gzip-compressed', 'gzip-not-accepted-identity', 'error-through-stack', 'null-route-through-stack',
+    required_probes = ('concurrent-batch', 'gzip-compressed', 'gzip-not-accepted-identity', 'error-through-stack', 'null-route-through-stack',
                        'head-through-gzip', 'clock-jump-within-request', 'mw-gzip', 'mw-stats', 'mw-cookie', 'mw-cache')
 
     def generate(self, seed, tier):
@@ -178,6 +184,18 @@ class C15(Check):
             if erng.random() < 0.2:
                 op['draws'] = [erng.choice([0.0, 1.0 - 2 ** -53, erng.random()]) for _ in range(3)]
             ops.append(op)
+            if rng.random() < 0.12:
+                sch = S['sched']
+                n = sch.choice([2, 2, 3])
+                gran = sch.choice(['line', 'line', 'ins'])
+                hi = 300 if gran == 'line' else 2000
+                names_t = ['T%d' % k for k in range(n)]
+                order = list(names_t)
+                sch.shuffle(order)
+                ops.append({'batch': [{'path': rng.choice(['/ok', '/text', '/ctx', '/rnd', '/x404', '/missing', '/small', '/ok']),
+                                       'method': 'GET', 'ae': rng.choice([0, 0, 2, 4, 5])} for _ in range(n)],
+                            'granularity': gran, 'order': order,
+                            'preempts': sorted([sch.randint(1, hi), sch.choice(['demote'] + names_t)] for _ in range(sch.randint(1, 8)))})
         return {'world': 'twin', 'seed': seed, 'config': {'stack': stack}, 'ops': ops}
 
     def execute(self, plan):
@@ -206,7 +224,112 @@ class C15(Check):
                 return res
             c1, c2 = SimClient('bare'), SimClient('full')
             names = '+'.join(stack_names)
+            def judge(e1, e2, op, step, ae, accepts):
+                ctx = 'step %d %s %s Accept-Encoding=%r stack=%s' % (step, op['method'], op['path'], ae, names)
+                kind = self.kind(op['path'], e1.code)
+                res.ev(step, op['method'], op['path'], ae, '->', e1.code, e2.code, e2.header('Content-Encoding'))
+                if e1.code != 200 or e2.header('Content-Encoding'):
+                    res.nontrivial = True
+                for n in stack_names:
+                    res.sigs.add('%s|%s|%s|%s|%s|%s' % (n, kind, op['method'], accepts, e2.code, e2.header('Content-Encoding')))
+                if e1.escaped is not None:
+                    raise InvalidPlan('the bare twin let %r escape' % (e1.escaped,))
+                if e2.escaped is not None:
+                    res.violate(K + 'exception-escaped:%s@%s' % (type(e2.escaped).__name__, kind), ctx + ' -> %r' % (e2.escaped,), step)
+                    return False
+                if e1.code != e2.code:
+                    culprit = self.culprit(e2)
+                    res.violate(K + 'status-changed:%s-to-%s%s' % (e1.code, e2.code, culprit),
+                                ctx + ' -> bare %s, with middlewares %s\n%s' % (e1.status, e2.status, e2.body[:500].decode('utf8', 'replace')), step)
+                    return False
+                if e1.code >= 400:
+                    res.probe('error-through-stack')
+                    if kind in ('unknown-url', 'wrong-method'):
+                        res.probe('null-route-through-stack')
+                enc = e2.header('Content-Encoding')
+                sent = e2.body
+                dec = sent
+                if enc == 'gzip':
+                    res.probe('gzip-compressed')
+                    if not accepts:
+                        res.violate(K + 'gzip/sent-to-client-not-accepting', ctx + ' -> Content-Encoding: gzip', step)
+                        return False
+                    if op['method'] != 'HEAD':
+                        try:
+                            dec = gzip.decompress(sent)
+                        except Exception as e:
+                            res.violate(K + 'gzip/not-decodable@%s' % kind, ctx + ' -> %r' % (e,), step)
+                            return False
+                    if 'accept-encoding' not in (e2.header('Vary') or '').lower():
+                        res.violate(K + 'gzip/no-vary', ctx + ' -> Vary: %r' % e2.header('Vary'), step)
+                        return False
+                elif enc:
+                    res.violate(K + 'unexpected-content-encoding', ctx + ' -> %r' % enc, step)
+                    return False
+                if 'gzip' in stack_names and not accepts:
+                    res.probe('gzip-not-accepted-identity')
+                if 'gzip' in stack_names and op['method'] == 'HEAD':
+                    res.probe('head-through-gzip')
+                if normalise(e1.code, dec) != normalise(e1.code, e1.body):
+                    res.violate(K + 'body-changed@%s%s' % (kind, ':gzip' if enc else ''),
+                                ctx + ' -> decoded body differs: bare %d bytes %r..., with middlewares %d bytes %r...'
+                                % (len(e1.body), e1.body[:60], len(dec), dec[:60]), step)
+                    return False
+                cl = e2.header('Content-Length')
+                if op['method'] != 'HEAD' and cl is not None and int(cl) != len(sent):
+                    res.violate(K + 'content-length-mismatch@%s%s' % (kind, ':gzip' if enc else ''),
+                                ctx + ' -> Content-Length %s but %d bytes sent' % (cl, len(sent)), step)
+                    return False
+                if enc == 'gzip' and cl is None and op['method'] != 'HEAD':
+                    res.violate(K + 'gzip/no-content-length', ctx, step)
+                    return False
+                if (e1.header('Location') or None) != (e2.header('Location') or None):
+                    res.violate(K + 'location-changed', ctx + ' -> %r vs %r' % (e1.header('Location'), e2.header('Location')), step)
+                    return False
+                return True
+
+            def request_env(op, client):
+                ae, accepts = AES[op['ae']]
+                hdr = {}
+                if ae is not None:
+                    hdr['Accept-Encoding'] = ae
+                ck = client.cookie_header()
+                if ck:
+                    hdr['Cookie'] = ck
+                body = b'unread_p=pv&x=1' if op['method'] == 'POST' else b''
+                if op['method'] == 'POST':
+                    hdr['Content-Type'] = 'application/x-www-form-urlencoded'
+                return make_environ(op['method'], op['path'], headers=hdr, body=body)
+
             for step, op in enumerate(plan['ops']):
+                if 'batch' in op:
+                    # several clients at once on the application WITH the middlewares; the twin serves them one by one
+                    reqs = op['batch']
+                    alone = [call_app(bare, request_env(r, c1), validate=False) for r in reqs]
+                    got = {}
+                    tasks = {}
+                    for k, r in enumerate(reqs):
+                        env = request_env(r, c2)
+                        tasks['T%d' % k] = (lambda k=k, env=env: got.__setitem__(k, call_app(full, env, validate=False)))
+                    t0 = clock.now
+                    sched = BatonScheduler(op.get('order', sorted(tasks)), op.get('preempts', []), op.get('granularity', 'line'), WATCH)
+                    sched.run(tasks)
+                    clock.now = t0
+                    res.fire('preempt', len(sched.switches))
+                    res.probe('concurrent-batch')
+                    res.nontrivial = True
+                    if sched.errors:
+                        res.violate(K + 'thread-raised:%s' % type(list(sched.errors.values())[0]).__name__, '%r' % (sched.errors,), step)
+                        break
+                    ok = True
+                    for k, r in enumerate(reqs):
+                        ae, accepts = AES[r['ae']]
+                        if not judge(alone[k], got[k], r, step, ae, accepts):
+                            ok = False
+                            break
+                    if not ok:
+                        break
+                    continue
                 clock.advance(op.get('dt', 0))
                 ae, accepts = AES[op['ae']]
                 out = []
@@ -234,66 +357,7 @@ class C15(Check):
                     client.absorb(ex)
                     out.append(ex)
                 e1, e2 = out
-                ctx = 'step %d %s %s Accept-Encoding=%r stack=%s' % (step, op['method'], op['path'], ae, names)
-                kind = self.kind(op['path'], e1.code)
-                res.ev(step, op['method'], op['path'], ae, '->', e1.code, e2.code, e2.header('Content-Encoding'))
-                if e1.code != 200 or e2.header('Content-Encoding'):
-                    res.nontrivial = True
-                for n in stack_names:
-                    res.sigs.add('%s|%s|%s|%s|%s|%s' % (n, kind, op['method'], accepts, e2.code, e2.header('Content-Encoding')))
-                if e1.escaped is not None:
-                    raise InvalidPlan('the bare twin let %r escape' % (e1.escaped,))
-                if e2.escaped is not None:
-                    res.violate(K + 'exception-escaped:%s@%s' % (type(e2.escaped).__name__, kind), ctx + ' -> %r' % (e2.escaped,), step)
-                    break
-                if e1.code != e2.code:
-                    culprit = self.culprit(e2)
-                    res.violate(K + 'status-changed:%s-to-%s%s' % (e1.code, e2.code, culprit),
-                                ctx + ' -> bare %s, with middlewares %s\n%s' % (e1.status, e2.status, e2.body[:500].decode('utf8', 'replace')), step)
-                    break
-                if e1.code >= 400:
-                    res.probe('error-through-stack')
-                    if kind in ('unknown-url', 'wrong-method'):
-                        res.probe('null-route-through-stack')
-                enc = e2.header('Content-Encoding')
-                sent = e2.body
-                dec = sent
-                if enc == 'gzip':
-                    res.probe('gzip-compressed')
-                    if not accepts:
-                        res.violate(K + 'gzip/sent-to-client-not-accepting', ctx + ' -> Content-Encoding: gzip', step)
-                        break
-                    if op['method'] != 'HEAD':
-                        try:
-                            dec = gzip.decompress(sent)
-                        except Exception as e:
-                            res.violate(K + 'gzip/not-decodable@%s' % kind, ctx + ' -> %r' % (e,), step)
-                            break
-                    if 'accept-encoding' not in (e2.header('Vary') or '').lower():
-                        res.violate(K + 'gzip/no-vary', ctx + ' -> Vary: %r' % e2.header('Vary'), step)
-                        break
-                elif enc:
-                    res.violate(K + 'unexpected-content-encoding', ctx + ' -> %r' % enc, step)
-                    break
-                if 'gzip' in stack_names and not accepts:
-                    res.probe('gzip-not-accepted-identity')
-                if 'gzip' in stack_names and op['method'] == 'HEAD':
-                    res.probe('head-through-gzip')
-                if normalise(e1.code, dec) != normalise(e1.code, e1.body):
-                    res.violate(K + 'body-changed@%s%s' % (kind, ':gzip' if enc else ''),
-                                ctx + ' -> decoded body differs: bare %d bytes %r..., with middlewares %d bytes %r...'
-                                % (len(e1.body), e1.body[:60], len(dec), dec[:60]), step)
-                    break
-                cl = e2.header('Content-Length')
-                if op['method'] != 'HEAD' and cl is not None and int(cl) != len(sent):
-                    res.violate(K + 'content-length-mismatch@%s%s' % (kind, ':gzip' if enc else ''),
-                                ctx + ' -> Content-Length %s but %d bytes sent' % (cl, len(sent)), step)
-                    break
-                if enc == 'gzip' and cl is None and op['method'] != 'HEAD':
-                    res.violate(K + 'gzip/no-content-length', ctx, step)
-                    break
-                if (e1.header('Location') or None) != (e2.header('Location') or None):
-                    res.violate(K + 'location-changed', ctx + ' -> %r vs %r' % (e1.header('Location'), e2.header('Location')), step)
+                if not judge(e1, e2, op, step, ae, accepts):
                     break
         res.steps = len(plan['ops'])
         res.sim_time = clock.covered
